@@ -62,3 +62,19 @@
   (ite (not (= (p.err r) Nil)) r
   (ite (>= (firstMissing31 (p.seen r)) 0) (mk-pres31 (PErr T_ErrMissing (vname31 (firstMissing31 (p.seen r)))) (p.seen r) (p.vals r))
   r)))))
+
+; ---- C10: when do two objects have to score alike? ----
+(define-fun sameBase31 ((a CVSS31) (b CVSS31)) Bool
+  (and (= (f31_AV a) (f31_AV b)) (= (f31_AC a) (f31_AC b)) (= (f31_PR a) (f31_PR b)) (= (f31_UI a) (f31_UI b))
+       (= (f31_S a) (f31_S b)) (= (f31_C a) (f31_C b)) (= (f31_I a) (f31_I b)) (= (f31_A a) (f31_A b))))
+; undefined temporal metrics count as the value with the same weight (E:X = H, RL:X = U, RC:X = C):
+; normNN_* maps a code to the first code of equal specification weight
+(define-fun sameTemporal31 ((a CVSS31) (b CVSS31)) Bool
+  (and (= (norm31_E (f31_E a)) (norm31_E (f31_E b))) (= (norm31_RL (f31_RL a)) (norm31_RL (f31_RL b))) (= (norm31_RC (f31_RC a)) (norm31_RC (f31_RC b)))))
+(define-fun sameBaseTemporal31 ((a CVSS31) (b CVSS31)) Bool (and (sameBase31 a b) (sameTemporal31 a b)))
+; environmental: same effective (Modified-or-base) values, same requirement weights (X = M), same temporal
+(define-fun sameEffective31 ((a CVSS31) (b CVSS31)) Bool
+  (and (= (eff31_AV a) (eff31_AV b)) (= (eff31_AC a) (eff31_AC b)) (= (eff31_PR a) (eff31_PR b)) (= (eff31_UI a) (eff31_UI b))
+       (= (eff31_S a) (eff31_S b)) (= (eff31_C a) (eff31_C b)) (= (eff31_I a) (eff31_I b)) (= (eff31_A a) (eff31_A b))
+       (= (norm31_CIAR (f31_CR a)) (norm31_CIAR (f31_CR b))) (= (norm31_CIAR (f31_IR a)) (norm31_CIAR (f31_IR b))) (= (norm31_CIAR (f31_AR a)) (norm31_CIAR (f31_AR b)))
+       (sameTemporal31 a b)))
